@@ -141,6 +141,9 @@ func genSchemaFamily(c *Ctx, filter func(string) bool) {
 		if c.Prop == "C08" || c.Prop == "C18" {
 			n, deepFrom = 24, 20 // the document space per type is the expensive dimension here
 		}
+		if c.Prop == "C20" {
+			n, deepFrom = 12, -1 // three harnesses per operation, each with the heap monitor on
+		}
 	}
 	if (c.Prop == "C08" || c.Prop == "C18") && c.Tier != "thorough" {
 		n = 12 // the document space per type is the expensive dimension here
